@@ -193,6 +193,13 @@ int main(int argc, char **argv) {
     in = &f;
   }
   std::ios::sync_with_stdio(false);
+  // The library logs some rejections with printf (DRACO_LOGE): keep the line protocol on a private copy of stdout
+  // and send everything else that is written to fd 1 to stderr.
+  fflush(stdout);
+  const int proto_fd = dup(1);
+  dup2(2, 1);
+  FILE *proto = fdopen(proto_fd, "w");
+  if (!proto) return 2;
   if (const char *w = getenv("VH_WATCHDOG")) g_watch = atoi(w) > 0 ? atoi(w) : g_watch;
   signal(SIGALRM, on_alarm);
   {
@@ -223,19 +230,20 @@ int main(int argc, char **argv) {
     std::string t;
     while (ss >> t) a.push_back(t);
     if (a.empty()) {
-      std::cout << "\n";
+      fputs("\n", proto);
       continue;
     }
     auto it = vh::registry().find(a[0]);
     if (it == vh::registry().end()) {
-      std::cout << "bad-op\n";
+      fputs("bad-op\n", proto);
       continue;
     }
     alarm(static_cast<unsigned>(g_watch));
     std::string out = it->second(a);
     alarm(0);
-    std::cout << out << "\n";
-    std::cout.flush();
+    fputs(out.c_str(), proto);
+    fputc('\n', proto);
+    fflush(proto);
   }
   return 0;
 }
